@@ -472,7 +472,8 @@ inline void scheduler_interval_stop(const vf::opts &o, vf::report &R, vf::team &
     for (uint64_t rn = 0; rn < rounds && R.nviol() < 5; rn++) {
         vf::rng r(master.next());
         int ticks_before = (int)r.below(3);
-        std::string desc = "ticks_before_stop=" + std::to_string(ticks_before);
+        int stop_point = (int)r.below(3); // 0: while a tick is pending (sleep registered), 1: between two ticks (generator parked at its yield, nothing pending), 2: token already stopped before the first tick
+        std::string desc = "ticks_before_stop=" + std::to_string(ticks_before) + (stop_point == 0 ? " stop during a pending tick" : stop_point == 1 ? " stop between two ticks" : " token stopped before the first tick");
         vf::set_crash_ctx(R.prop.c_str(), "scheduler_interval_stop", o.seed, rn, desc.c_str());
         std::string err;
         T.round([&](int tid) {
@@ -481,10 +482,18 @@ inline void scheduler_interval_stop(const vf::opts &o, vf::report &R, vf::team &
             sch.start_thread();
             std::stop_source src;
             {
+                if (stop_point == 2) src.request_stop();
                 auto gen = sch.interval(std::chrono::microseconds(300), src.get_token());
-                for (int i = 0; i < ticks_before; i++) {
+                if (stop_point == 2) { cocls::future<std::size_t> f = gen(); if (f.has_value()) err = "interval generator produced a tick although its stop token was already stopped"; return; }
+                for (int i = 0; i < ticks_before + (stop_point == 1 ? 1 : 0); i++) {
                     cocls::future<std::size_t> f = gen();
                     if (!f.has_value()) { err = "interval generator ended before it was stopped"; return; }
+                }
+                if (stop_point == 1) { // nothing is pending now: the stop request finds no sleep to cancel; the next call must report the end
+                    src.request_stop();
+                    cocls::future<std::size_t> f1 = gen();
+                    if (f1.has_value()) { cocls::future<std::size_t> f2 = gen(); if (f2.has_value()) err = "interval generator kept producing after stop was requested between two ticks"; }
+                    return;
                 }
                 cocls::future<std::size_t> f = gen();      // pending tick (sleep registered in the scheduler)
                 src.request_stop();                         // cancels the pending sleep through the stop token
